@@ -597,3 +597,19 @@ package helper
 //@ ensures[C01,C15] rmaS(a, P, k) <= 0
 //@ induction k
 //@ use psum_nonpos(a, P)
+
+// ---- congruence: spec functions depend only on the elements they read ---------------------------------------------
+//@ lemma psum_cong(a stream, b stream, n int)
+//@ requires[C01,C15] forall j :: 0 <= j && j < n ==> a[j] == b[j]
+//@ ensures[C01,C15] psum(a, n) == psum(b, n)
+//@ induction n
+//@ lemma rma_cong(a stream, b stream, P int, k int)
+//@ requires[C01,C15] P >= 1 && k >= 0 && (forall j :: 0 <= j && j < k + P ==> a[j] == b[j])
+//@ ensures[C01,C15] rmaS(a, P, k) == rmaS(b, P, k)
+//@ induction k
+//@ use psum_cong(a, b, P)
+//@ lemma ema_cong(a stream, b stream, P int, m real, k int)
+//@ requires[C01,C15] P >= 1 && k >= 0 && (forall j :: 0 <= j && j < k + P ==> a[j] == b[j])
+//@ ensures[C01,C15] emaS(a, P, m, k) == emaS(b, P, m, k)
+//@ induction k
+//@ use psum_cong(a, b, P)
